@@ -6,6 +6,11 @@ unsigned int scan_ulong(char *s, unsigned long *u)
   unsigned long c;
   pos = 0; result = 0;
   while ((c = (unsigned long) (unsigned char) (s[pos] - '0')) < 10)
-    { result = result * 10 + c; ++pos; }
+   {
+    /* a number that does not fit saturates instead of wrapping around */
+    if (result > (~0UL - c) / 10) result = ~0UL;
+    else result = result * 10 + c;
+    ++pos;
+   }
   *u = result; return pos;
 }
